@@ -37,7 +37,9 @@ MANIFEST = dict(
     note='Trusted: Coq kernel; translate/kernels/manager.py (shallow translation of the refcount statements, '
          'statement-text -> primitive table for the skeletons, registry probe by importing the working tree); '
          'the meaning given to the 33 primitives in Model/Manager.v; harness/mgr_driver.py (fake connection, ident '
-         'renaming, canonicalisation of replies); CPython list/dict semantics as written in Manager.apply_local '
+         'renaming, canonicalisation of replies, the owner-tracking stand-ins for Server.mutex and the two tables); '
+         'harness/mgr_conc_driver.py and the monitors in props/c20conc.py (concurrent scenarios: tested, not proved); '
+         'CPython list/dict semantics as written in Manager.apply_local '
          '(checked against real objects only through the correspondence). All theorems Closed under the global context.',
     technique='Coq proof over translator-regenerated kernels and control skeletons + differential correspondence',
     ref='5.20',
@@ -1058,7 +1060,7 @@ def run(res):
             res.cov['phase_wall_s'] = dict(phases)
     timed('proof (incl. waiting for the shared build lock)', res.proof_step, 'Props/C20.v',
           extra_targets=['Model/Manager.vo'], kernels_needed=['G_manager'])
-    n = 150 if res.tier == 'quick' else 4000
+    n = 150 if res.tier == 'quick' else 3000      # (thorough: + ~3 min of concurrent scenarios, 15 min budget)
     if res.broken:
         n = max(n, 1500)
     late = timed('server', correspond_server, res, n)
